@@ -117,7 +117,8 @@ def _witness_holds(kw: Dict[str, Any], impl: List[Any]) -> bool:
 def explore_core(ctx: Ctx, prop: CoreProp) -> Exploration:
     rng = random.Random(ctx.seed * 7919 + 17)
     exp = Exploration()
-    listed = {k["id"] for k in known_findings().get("known", [])}
+    # a known finding excuses a failure of THIS property only if the committed file lists it for this property
+    listed = {k["id"] for k in known_findings().get("known", []) if prop.pid in k.get("properties", [])}
     items = prop.programs(rng, ctx.tier)
     stats = {"programs": 0, "ops": 0, "disagreements": 0, "oracle_failures": 0, "known_seen": {},
              "errors_hit": {}, "kinds": {}, "fuel_skipped": 0}
